@@ -77,9 +77,46 @@ def run(tier):
         for k in range(40):
             prog = [rnd.choice(allc) for _ in range(rnd.randrange(1, 30))]
             add(c, rnd.choice([0, 3]), [p[0] for p in prog], [p[1] for p in prog], ["chunk 0 8"] if k % 2 else [], "disabled")
+    # ---- execution monitor: padding must not change what the code computes. Executable programs (register arithmetic on
+    # caller-saved registers, multi-byte nops, no memory access) are run plain and fitted; both must return the same value.
+    exlines = ["mov rax, 0x1122334455667788", "mov rcx, 0x1000000000000001", "add rax, rcx", "xor rdx, rdx", "lea rdx, [rax+rcx*2+0x10]", "add rax, rdx", "nop7", "nop11",
+               "imul rcx, rcx, 3", "sub rax, rcx", "mov r8, 0x7fffffff", "add rax, r8", "rorx r9, rax, 13", "xor rax, r9", "shl rax, 1", "not rax", "movq xmm1, rax", "movq r10, xmm1", "add rax, r10",
+               "vpaddb ymm4, ymm2, ymm3", "test rax, rax", "cmovne r11, rax", "mov edx, 5", "nop3", "bextr r9, rax, rcx", "add rax, 0x7f", "sbb rcx, rcx"]
+    excases, exmeta = [], []
+    nexec = 150 if not full else 3000
+    for k in range(nexec):
+        # every register and flag the body reads is initialised first (rax holds the code address on entry)
+        prologue = ["mov rax, 0x1122334455667788", "mov rcx, 0x0102030405060708", "mov rdx, 0x1111", "mov r8, 0x2222", "mov r9, 0x3333", "mov r10, 0x4444", "mov r11, 0x5555",
+                    "movq xmm1, rax", "add rax, rcx"]
+        prog = prologue + [rnd.choice(exlines) for _ in range(rnd.randrange(3, 30))] + ["ret"]
+        c = rnd.choice([x for x in cs if x <= 100])
+        text = common.hx("\n".join(prog))
+        excases.append(["new 0 int", "asm 0 %s" % text, "exec 0", "new 1 int", "chunk 1 %d" % c, "asm 1 %s" % text, "exec 1", "getoff 0", "getoff 1"])
+        exmeta.append((c, prog))
+    plain = common.build("plain")
+    exres = common.run_cases(plain, excases, tag="c13x")
+    exec_ok = exec_padded = 0
+    for (c, prog), cmds, r in zip(exmeta, excases, exres):
+        v.count()
+        case = {"key": "exec c=%d n=%d %s" % (c, len(prog), prog[:3]), "fam": "fit_exec", "c": c, "script": cmds}
+        if r["crash"]:
+            v.violation(case, r["crash"]["sig"], r["crash"]["stderr"][-600:])
+            continue
+        recs = r["records"]
+        e0, e1 = recs[2].split(), recs[6].split()
+        if recs[1].split()[1] != "0" or recs[5].split()[1] != "0":
+            v.violation(case, "exec:program-rejected", " | ".join(recs[1:6]))
+        elif e0[:2] != ["V", "ok"]:
+            raise common.HarnessError("plain executable program did not run: %s" % recs[2])
+        elif e1 != e0:
+            v.violation(case, "exec:fitted-code-computes-differently", "plain %s fitted %s" % (" ".join(e0), " ".join(e1)))
+        else:
+            exec_ok += 1
+            exec_padded += int(recs[8].split()[1]) > int(recs[7].split()[1])
+            v.distinct(("exec", c, tuple(prog)))
     res = common.run_cases(binary, cases, tag="c13")
     oracle.decode_many([])
-    stats = {"pads": 0, "pad_bytes": 0, "max_pad": 0, "grid_cases": 0, "random_cases": 0, "disabled_cases": 0, "triples_c_q_len": 0}
+    stats = {"executions_equal": exec_ok, "executions_with_padding": exec_padded, "pads": 0, "pad_bytes": 0, "max_pad": 0, "grid_cases": 0, "random_cases": 0, "disabled_cases": 0, "triples_c_q_len": 0}
     seen_triples = set()
     for (c, start, lines, hexes, lens, tag, npre), cmds, r in zip(meta, cases, res):
         v.count()
@@ -111,7 +148,7 @@ def run(tier):
     v.cov["rule"] = ("grid: chunk sizes %s x every position q in 0..c-1 (prefix of q one-byte non-NOP instructions) x every encoded length in the catalogue (%s bytes; 2+ lines each): "
                      "every (c,q,len) triple incl. gaps > 11 bytes; plus seeded random programs x start offsets x fitting switched on/off/resized before the call; c<2 must give the plain code. "
                      "Oracle: layout model (pad exactly where the next instruction shorter than c would cross a c-aligned boundary), pad bytes must decode (two decoders) as NOP instructions "
-                     "exactly covering the gap, instruction bytes must equal their plain encoding (stripped == plain)" % ("2..20,32,64" if not full else "2..40,64,100,4096", sorted(cat)))
+                     "exactly covering the gap, instruction bytes must equal their plain encoding (stripped == plain); plus JIT execution: seeded executable programs must return the same rax plain and fitted" % ("2..20,32,64" if not full else "2..40,64,100,4096", sorted(cat)))
     v.cov["exhaustive"] = True
     v.cov.update(stats)
     return v.finish(None, stats["pads"] > 100 and stats["max_pad"] >= 12, "too few pads observed: %r" % stats)
